@@ -1121,8 +1121,10 @@ fn enumerate_cases(ctx: &Ctx) -> Vec<Lite> {
         }
         if n < n_a {
             vars.push(v("f64", "string", 0, 0, 0));
-            vars.push(v("f64", "bool", 1, 0, 0));
             vars.push(v("f32", "usize", 0, 0, 0));
+        }
+        if n <= 4 {
+            vars.push(v("f64", "bool", 1, 0, 0));
             vars.push(v("f32", "string", 2, 0, 0));
         }
         if ctx.thorough() && n <= 4 {
@@ -1162,7 +1164,7 @@ fn enumerate_cases(ctx: &Ctx) -> Vec<Lite> {
     let alpha_d = pts(2, 3);
     for n in 1..=ctx.pick(3, 4) {
         let sets = datasets(9, n, 6);
-        let mut vars = vec![v("f64", "usize", 0, 0, 0)];
+        let mut vars = vec![v("f64", "usize", 0, if n <= 3 { 0 } else { 1 }, 0)];
         if n <= 3 {
             vars.push(v("f32", "bool", 0, 0, 0));
         }
